@@ -123,9 +123,21 @@ class SimHarness(HarnessBase):
             if k >= lim['n']:
                 raise TooManyInstants('instant %d computed but the requested grid ends at instant %d' % (k, lim['n'] - 1))
             v = env.real('load') if getattr(self, 'const_load', False) else env.real('load_%d' % k)
-            rec['load_calls'].append(dict(t=sival(time), pos=sival(angular_position), spd=sival(angular_speed), val=v))
+            rec['load_calls'].append(dict(t=sival(time), pos=sival(angular_position), spd=sival(angular_speed), val=v, fn=0))
             return gu.Torque(v, 'Nm')
         last.external_torque = ext
+        cur_fn = dict(i=0)
+
+        def make_load(j):
+            # a NEW load function object the user assigns between two runs (op 'newload'): other values, other unit
+            def extj(time, angular_position, angular_speed):
+                k = len(rec['load_calls'])
+                if k >= lim['n']:
+                    raise TooManyInstants('instant %d computed but the requested grid ends at instant %d' % (k, lim['n'] - 1))
+                v = env.real('load%s_%d' % (chr(ord('a') + j), k))
+                rec['load_calls'].append(dict(t=sival(time), pos=sival(angular_position), spd=sival(angular_speed), val=v, fn=j))
+                return gu.Torque(v * 1000, 'mNm')
+            return extj
         pt = Powertrain(motor=M.motor)
         rec['self_locking_flag'] = bool(pt.self_locking)
         th0 = env.real('th0')
@@ -188,6 +200,10 @@ class SimHarness(HarnessBase):
                     rec['load_calls'], rec['duty'], rec['runs'] = [], [], []
                 elif op[0] == 'newsolver':
                     solver = Solver(powertrain=pt)
+                elif op[0] == 'newload':
+                    cur_fn['i'] += 1
+                    last.external_torque = make_load(cur_fn['i'])
+                    rec.setdefault('load_fn_from', []).append((len(pt.time), cur_fn['i']))
                 elif op[0] == 'setpwm':
                     M.motor.pwm = op[1]         # the user sets the duty cycle between two runs
                 elif op[0] in ('reinit', 'reinit_state'):
@@ -204,6 +220,8 @@ class SimHarness(HarnessBase):
             if r['end'] is None:
                 r['end'] = len(pt.time)
         self._record(rec, pt, M)
+        if 'C09' in self.props:
+            rec['recomputed'] = self._recompute_forces(M)
         if 'stop' in rec:
             self._stop_readings(rec, M)
         if not env.symbolic and 'C17' in self.props and rec['raised'] is None and rec['n'] >= 2:
@@ -247,10 +265,13 @@ class SimHarness(HarnessBase):
         for idx, items in self.opt_spec.items():
             d = {}
             for k, v in dict(items).items():
+                # magnitudes are given in mm / GPa; units['opt_<name>'] re-expresses one (same physical magnitude)
                 if k in ('module', 'face_width', 'reference_diameter'):
-                    d[k] = gu.Length(v, 'mm')
+                    u = (self.units or {}).get('opt_' + k, 'mm')
+                    d[k] = gu.Length(v if u == 'mm' else float(Fraction(v) * si.SI['Length']['mm'] / si.SI['Length'][u]), u)
                 elif k == 'elastic_modulus':
-                    d[k] = gu.Stress(v, 'GPa')
+                    u = (self.units or {}).get('opt_' + k, 'GPa')
+                    d[k] = gu.Stress(v if u == 'GPa' else float(Fraction(v) * si.SI['Stress']['GPa'] / si.SI['Stress'][u]), u)
             out[idx] = d
         return out
 
@@ -365,6 +386,68 @@ class SimHarness(HarnessBase):
         rec['P'] = dict(J=list(M.J), rho=list(M.rho), eta=list(M.eta),
                         w0=M.w0, Tmax=M.Tmax, i0=M.i0, imax=M.imax, locking=M.locking)
 
+    def _recompute_forces(self, M):
+        """C09 at simulation level: for every recorded instant, put the element's recorded reference torques back and
+        call the element's own compute_tangential_force / compute_bending_stress / compute_contact_stress (whose
+        formulas the method-level C09 harnesses check against the documented ones): the recorded samples must be
+        what these give. Returns, per element, {variable: [value per instant]}."""
+        out = []
+        saved = []
+        for o in M.objs:
+            saved.append({a: getattr(o, a, None) for a in ('driving_torque', 'load_torque', 'tangential_force',
+                                                            'bending_stress', 'contact_stress')})
+        n = min(len(o.time_variables['driving torque']) for o in M.objs)
+        per = [dict() for _ in M.objs]
+        for k in range(n):
+            # tangential forces first (a gear's contact stress reads its own force; bending stress too)
+            for i, o in enumerate(M.objs):
+                tv = o.time_variables
+                if 'tangential force' not in tv:
+                    continue
+                o.driving_torque = tv['driving torque'][k]
+                o.load_torque = tv['load torque'][k]
+                try:
+                    o.compute_tangential_force()
+                    per[i].setdefault('tangential force', []).append(sival_as(o.tangential_force, VAR_KIND.get('tangential force')))
+                    if 'bending stress' in tv:
+                        o.compute_bending_stress()
+                        per[i].setdefault('bending stress', []).append(sival_as(o.bending_stress, VAR_KIND.get('bending stress')))
+                    if 'contact stress' in tv:
+                        o.compute_contact_stress()
+                        per[i].setdefault('contact stress', []).append(sival_as(o.contact_stress, VAR_KIND.get('contact stress')))
+                except (ValueError, TypeError, ZeroDivisionError, AttributeError) as e:
+                    per[i].setdefault('_error', []).append('%s: %s' % (type(e).__name__, str(e)[:80]))
+        for o, sv in zip(M.objs, saved):
+            for a, v in sv.items():
+                if v is not None:
+                    try:
+                        setattr(o, a, v)
+                    except Exception:  # noqa
+                        pass
+        return per
+
+    def ob_C09(self, rec):
+        obs = []
+        E = rec['el']
+        R = rec.get('recomputed') or []
+        obs.append(holds('simst.recomputed', len(R) == len(E), info='%d vs %d' % (len(R), len(E))))
+        n = self._n_common(rec)
+        for i in range(min(len(R), len(E))):
+            if R[i].get('_error'):
+                obs.append(holds('simst.formula_applies[i=%d]' % i, False, info=str(R[i]['_error'][:2])))
+            for var in ('tangential force', 'bending stress', 'contact stress'):
+                if var not in E[i]:
+                    continue
+                got, exp = E[i][var], R[i].get(var, [])
+                for k in range(min(n, len(got))):
+                    if k >= len(exp) or got[k] is None or exp[k] is None:
+                        obs.append(holds('simst.sample_present[i=%d,%s,k=%d]' % (i, var, k), False,
+                                         info='recorded %r, formula %r' % (got[k], exp[k] if k < len(exp) else None)))
+                        continue
+                    obs.append(eq('simst.%s_follows_the_recorded_torques[i=%d,k=%d]' % (var.replace(' ', '_'), i, k),
+                                  got[k], exp[k], prefer_robust=False))
+        return obs
+
     # ---------------------------------------------------------- obligations
     def obligations(self, out):
         if not out.ok:
@@ -454,6 +537,10 @@ class SimHarness(HarnessBase):
                               E[i]['load torque'][k], prefer_robust=wr))
             c = rec['load_calls'][k]
             obs.append(eq('tq.load_value[k=%d]' % k, E[L]['load torque'][k], c['val']))
+            if rec.get('load_fn_from'):
+                want = max([j for (start, j) in rec['load_fn_from'] if start <= k] or [0])
+                obs.append(holds('tq.load_is_the_current_function[k=%d]' % k, c.get('fn', 0) == want,
+                                 info='instant %d evaluated load function #%s, the one assigned is #%d' % (k, c.get('fn'), want)))
             obs.append(eq('tq.load_arg_pos[k=%d]' % k, c['pos'], E[L]['angular position'][k]))
             obs.append(eq('tq.load_arg_spd[k=%d]' % k, c['spd'], E[L]['angular speed'][k]))
             obs.append(eq('tq.load_arg_time[k=%d]' % k, c['t'], rec['time'][k]))
@@ -753,6 +840,11 @@ class TwinHarness(SimHarness):
                     if la[k] is None or lb[k] is None:
                         obs.append(holds('same.defined[i=%d,%s,k=%d]' % (i, var, k), la[k] is None and lb[k] is None))
                         continue
+                    if var == 'contact stress' and isinstance(la[k], SR) and isinstance(lb[k], SR):
+                        # a square root on both sides (two auxiliaries y with y*y == radicand): compare the squares, which
+                        # the facts turn into the (affine) radicands
+                        obs.append(eq('same.history[i=%d,%s,k=%d]' % (i, var, k), T(la[k]) * T(la[k]), T(lb[k]) * T(lb[k]), tol=4e-9))
+                        continue
                     obs.append(eq('same.history[i=%d,%s,k=%d]' % (i, var, k), la[k], lb[k], tol=1e-9))
         return obs
 
@@ -819,6 +911,9 @@ def common_specs(tier, seed, arb=True, locking=True, units=True):
     # (value and unit), the simulation time given in yet another unit
     S.append(spec('T1', schedule=(('run', 2), ('run', 2, 'ms', 2, 'sec')), tag=':cont_other_dt'))
     S.append(spec('T3', schedule=(('run', 2), ('reset',), ('reinit',), ('run', 2, 'sec', 0.5, 'ms')), tag=':rerun_other_dt'))
+    # the user assigns another load function between two runs (continuation) and after a reset
+    S.append(spec('T1', schedule=(('run', 2), ('newload',), ('run', 2)), tag=':new_load_function'))
+    S.append(spec('T3', schedule=(('run', 2), ('reset',), ('newload',), ('reinit',), ('run', 2)), tag=':new_load_function_after_reset'))
     # the two motor currents given in different units, fractional duty cycles (fixed and arbitrary)
     S.append(spec('T3', schedule=(('run', 3),), control=('fixed', 0.5), units=(('i0u', 'mA'), ('imaxu', 'A')), tag=':mixed_current_units'))
     S.append(spec('T3', schedule=(('run', 2),), control=('arb', -1, 1), units=(('i0u', 'uA'), ('imaxu', 'mA')), tag=':mixed_current_units'))
@@ -854,7 +949,7 @@ BOUNDS = {
     'quick': 'K steps after the initial instant: K=2 with every continuous parameter symbolic (L-full, fixed duty, '
              'non-locking chains T1,T2,T3,T5,T6,T10 (T10 has an idler gear)) ; K<=4 with configuration and dt concrete and initial state, loads '
              '(fresh symbol per call) symbolic (L-state, T1..T7, T10) ; K=2 with an arbitrary duty cycle in [-1,1] per '
-             'instant (T3, T4) ; schedules run(4), run(2)+run(2), run(2)+run(2) and run(2)+reset+rerun with another dt value/unit and the simulation time in a third unit, run(2)+reset+rerun (same/new Solver, same or other initial conditions), early stop on a fresh run '
+             'instant (T3, T4) ; schedules run(4), run(2)+run(2), run(2)+run(2) and run(2)+reset+rerun with another dt value/unit and the simulation time in a third unit, run(2)+reset+rerun (same/new Solver, same or other initial conditions), another load function assigned between two runs / after a reset, early stop on a fresh run '
              'and during a continuation; chains of 3..8 elements',
     'thorough': 'quick + 44 seeded chains of 2..12 elements (K=3, continuation 2+2), L-full on 5 seeded chains, K=5, 17 unit assignments covering every unit of every input kind, '
                 'continuation 2+3, arbitrary duty on T6/T7',
